@@ -87,11 +87,11 @@ def card_bound(vs, bits):
 def lattice_fixed_point(tier):
   """Yields (class name, kwargs, oracle VS, oracle text, bits)."""
   if tier == "thorough":
-    bits_r, int_r = range(1, 17), range(0, 8)
+    bits_r, int_r = range(1, 17), range(-3, 8)
     alphas = (None, F(1), F(2), F(1, 4))
     slopes = (F(0), F(1, 2), F(1, 4), F(1, 8), F(1, 16))
   else:
-    bits_r, int_r = range(1, 9), range(0, 4)
+    bits_r, int_r = range(1, 9), range(-2, 4)
     alphas = (None, F(1), F(2))
     slopes = (F(0), F(1, 4), F(1, 8))
   for bits, integer, kn, sym, alpha in itertools.product(
